@@ -530,6 +530,10 @@ func check(vdir, prop, tier string, seed int64, only int) int {
 	// race reports become violations of the running property (C08 and the
 	// thorough tiers that run under -race)
 	for _, rr := range races {
+		if rr.Key == "HARNESS-ONLY" {
+			fmt.Printf("note: %d race reports without any sod frame (harness or runtime only): ignored for the verdict, see DESIGN.md M6\n", rr.N)
+			continue
+		}
 		cases = append(cases, CaseResult{Type: "case", Prop: prop, Case: -1, Verdict: "violation",
 			Violations: []Violation{{Sig: fmt.Sprintf("%s|race|-|any|%s", prop, rr.Key), Clause: "race", Detail: rr.Text}}})
 	}
